@@ -393,3 +393,10 @@ package ugo
 //@ vars a int, b uint, c uintptr, d byte, e float32
 //@ ensures specIntWidths(a, b, c, d, e)
 //@ property C20
+
+// Neither direction panics (safety sweep; nested values by the functions' own contracts).
+//@ func ToObject, ToObjectAlt
+//@ property C20
+
+//@ func ToInterface
+//@ property C20
